@@ -42,7 +42,7 @@ func execute(w *zsim.World, fn func() (r.Element, error)) (res ExecResult) {
 		if p := recover(); p != nil {
 			res.Panic = fmt.Sprintf("%v", p)
 			st := string(debug.Stack())
-			w.Logf("PANIC %v\n%s", p, firstLines(st, 14))
+			w.Logf("PANIC %v\n%s", p, firstLines(st, 40))
 		}
 		out := w.Out.String()[mark:]
 		if out != "" {
